@@ -118,3 +118,38 @@ META["C02"] = dict(
         "a None result at a non-Optional position is outside 'every non-null value conforms'",
     ],
 )
+
+META["C01"] = dict(
+    title="A dumped configuration re-parses to the same configuration",
+    level="exploration",
+    level_text="Runtime round-trip monitor: generated parsers (type grammar incl. Optional/Union, containers, Literal, Enum, "
+    "restricted/registered types, dataclasses, subclass specs, nested groups, subcommands) x accepted configurations rich in "
+    "hostile strings x 9 serialisation routes (dump yaml/json/json_indented/skip_default, --print_config [skip_default|comments], "
+    "save single/multi-file); the re-parsed configuration is compared value-for-value and type-for-type with the probe's own "
+    "copy of the original. A second monitor compares the YAML dumper/loader pair directly on every hostile string.",
+    level_note="Trusted: the comparator and the dynamic Union-ambiguity test (a value whose owner-member serialisation is read "
+    "differently by another member is logged, not judged). Any-typed arguments are outside the property's grammar.",
+    shards=g(4, 16),
+    budget=g(45, 300),
+    technique="round-trip differential at the API boundary (dump/print_config/save -> parse) with type-for-type comparator, "
+    "plus loader/dumper pair check on hostile scalars",
+    rule="a case is (route, multiset of argument type skeletons, source channel, lexical classes of the strings in the "
+    "configuration); distinct by hash of that tuple; non-trivial = the source parse was accepted so there is a configuration "
+    "to round trip.",
+    gates={
+        "mon.route.dump.json": g(300, 3000),
+        "mon.route.dump.skip_default": g(300, 3000),
+        "mon.route.dump.yaml": g(200, 2000),
+        "mon.route.print_config": g(100, 1000),
+        "mon.route.save.single": g(300, 3000),
+        "mon.route.save.multifile": g(200, 2000),
+        "mon.loader_dumper_pairs": g(500, 500),
+        "st.value_kind.enum": g(30, 300), "st.value_kind.dict": g(30, 300), "st.value_kind.tuple": g(30, 300),
+        "st.value_kind.set": g(20, 200), "st.value_kind.reg": g(30, 300), "st.value_kind.union": g(30, 300),
+        "st.value_kind.dataclass": g(20, 200), "st.value_kind.class": g(5, 50), "st.value_kind.literal": g(30, 300),
+    },
+    assumptions=[
+        "provenance (meta keys, config-argument destination) is not configuration",
+        "untagged Unions: a value is judged only if no other member reads its owner's serialisation differently",
+    ],
+)
